@@ -439,3 +439,18 @@ def r12h(model: Model, rr: RuleResult):
         rr.ok("_copy_cbdt deep-copies the strike and index sub-table templates for every run")
     else:
         rr.bad_shape(cb, cb.node, "_copy_cbdt: per-run copies of the strike templates not found", construct="_copy_cbdt: template copies")
+
+
+@RULES.rule("C12", "R12i", "SVGs generated from COLR are not passed through picosvg's rounding (which also rounds opacity)", floor=1)
+def r12i(model: Model, rr: RuleResult):
+    fi = model.func("generate_svgs_from_colr", "main")
+    cs = [c for c in calls_in(fi, nested=True) if callee_tail(c) == "colr_to_svg"]
+    if not cs:
+        raise AnalysisError("generate_svgs_from_colr.main: colr_to_svg call not found")
+    for c in cs:
+        r = kwarg(c, "rounding_ndigits") if kwarg(c, "rounding_ndigits") is not None else (c.args[2] if len(c.args) > 2 else None)
+        if r is None or norm(r) == "None":
+            rr.ok("generate_svgs_from_colr: colr_to_svg(view_box, font) without rounding")
+        else:
+            rr.bad(fi, c, f"generate_svgs_from_colr rounds the generated SVGs (rounding_ndigits={short(r, 40)}): picosvg's round_floats rounds EVERY float field of a shape, opacity included, so a "
+                   f"layer alpha of 0.5 becomes 0 (layer dropped) and 0.75 becomes 1 at 0 digits; the SVG / CBDT pictures no longer match the COLR glyph", construct="generate_svgs_from_colr: rounding_ndigits passed to colr_to_svg")
